@@ -627,6 +627,10 @@ func queryFace(ft *font.Font, w func(a ...any), seed uint64, focus []uint16) {
 			}
 		}
 	}
+	// hinting device tables (GPOS, GDEF) are only consulted under a pixel size
+	if len(ft.BitmapSizes()) == 0 {
+		face.SetPpem(12, 12)
+	}
 	first := text
 	if len(first) > 24 {
 		first = first[:24]
